@@ -201,8 +201,10 @@ def catalogue(func):
             su = db['succ']
             if len(su) != 2 or su[0] is None or su[1] is None:
                 continue
-            tdom = su[0] in dom[bid]
-            fdom = su[1] in dom[bid]
+            # a successor is a context only if it is entered exclusively over this edge (an if without else joins
+            # again in its "false successor", which then dominates everything after without being conditional)
+            tdom = su[0] in dom[bid] and func.pred[su[0]] == [d]
+            fdom = su[1] in dom[bid] and func.pred[su[1]] == [d]
             # a dominating `if` whose other branch just rejects/returns is an earlier guard, not a context
             other = su[1] if tdom else su[0]
             if _terminating(func, other):
